@@ -55,6 +55,13 @@ CHECKS = {
         ] + parruns(["VxC02_Reentry_Start3", "VxC02_Reentry_Select3", "VxC02_Reentry_From3", "VxC02_Reentry_Join3", "VxC02_Reentry_Where3"],
                     ["VxC02_Reentry_Start4", "VxC02_Reentry_Select4", "VxC02_Reentry_From4", "VxC02_Reentry_Join4", "VxC02_Reentry_Where4"], ["C02.reentry_accounted"], extra={"engine_only_asserts": ["C02.reentry_accounted"]}),
     },
+    "C03": {
+        "bounds": {"quick": "WHERE-expressions of <= 4 symbolic tokens over a 30-row lexeme table (identifiers, literals, every operator of the documented ladder, parentheses, NOT/IS/NULL/IN/BETWEEN/LIKE/AND/OR) and <= 5 tokens over a 16-row operator table; SELECT with every combination of DISTINCT/WHERE/GROUP BY/HAVING/ORDER BY [DESC]/LIMIT/OFFSET with symbolic names and numbers; chains of <= 2 set operators (UNION/EXCEPT/INTERSECT, ALL symbolic) over 3 selects",
+                   "thorough": "<= 5 tokens (30-row table), <= 7 tokens (operator table); same clause templates"},
+        "outside": "expressions longer than the bound; unary minus, JSON operators, ::, CASE, functions, sub-queries inside the expression window (not in the documented ladder harness); joins, CTEs, windows, DML/DDL/MERGE clause structure",
+        "assumptions": ["the reference precedence-climbing parser (harness/pkg/sql/parser/c03.go) states the documented ladder; when it rejects, nothing is asserted"],
+        "runs": parruns(["VxC03_Expr4", "VxC03_Ops5", "VxC03_Clauses", "VxC03_SetOps"], ["VxC03_Expr5", "VxC03_Ops7", "VxC03_Clauses", "VxC03_SetOps"], []),
+    },
     "C13": {
         "bounds": {"quick": "every failing path of the C01 runs (same bounds): tokenizer errors and low-level parser errors", "thorough": "same as C01 thorough"},
         "outside": "wording of messages and hints; errors of the gosqlx wrappers (checked by C07 harness); reproducibility across Go map iteration order",
